@@ -142,6 +142,22 @@ def map_rules(ctx, flavours):
                 for s in bb['stmts']:
                     if s['k'] == 'assign' and s['dst']['p'] and s['dst']['p'][-1].startswith('.0:') and s['dst']['p'][-1].endswith('@' + gp):
                         out.append(Obl('MAP', b['q'], s['sp'], 'map field assignment', False, 'the member map is replaced'))
+        # edge frame: a container stores handles; no container method adds or removes an edge of any node ("keeps the original",
+        # "changes made through them are visible": the only changes are the caller's)
+        from .effects import mutating_calls
+        from .rules_edge import model
+        M = model(ctx, fl)
+        nfr = 0
+        for q, b in sorted(F.bodies.items()):
+            owner = F.bodies.get(re.sub(r'(::\{closure#\d+\})+$', '', q), b)
+            if owner['impl_self_q'] != gp or (owner['impl_trait'] or '').startswith('serde::'):
+                continue
+            nfr += 1
+            mc = mutating_calls(F, M, b)
+            out.append(Obl('MAP-frame', q, b['span'], 'no edge is added or removed by a container method', not mc,
+                           'ok' if not mc else 'reaches %s via %s' % (mc[0][1], ' -> '.join(mc[0][0]))))
+        if nfr == 0:
+            out.append(Obl('MAP-frame', gp, '-', 'container methods present', False, 'anchor missing'))
     return out
 
 
